@@ -107,6 +107,7 @@ func C04(tier string) int {
 	run := h.NewRun("C04", tier, "model_checking", "", 25*time.Minute)
 	c04Seq(run, tier)
 	c04Case(run)
+	c04Long(run)
 	c04Sched(run, tier)
 	return run.Finish()
 }
@@ -239,6 +240,71 @@ func evalC04Case(c C04CaseCase) *h.Finding {
 }
 
 func init() { h.RegisterReplayer("c04-case", evalC04Case) }
+
+// ---- one reply to an over-long line, wherever it arrives ------------------------------------------------------
+
+type C04LongCase struct {
+	Mode string `json:"mode"`
+	Pos  string `json:"pos"` // command | auth-continuation | in-transaction
+	Seg  string `json:"seg"` // one | split | octet
+}
+
+func evalC04Long(c C04LongCase) *h.Finding {
+	pc := ref.PConfig{LMTP: strings.HasPrefix(c.Mode, "lmtp"), LMTPBackend: c.Mode == "lmtp-rcpt", AllowInsecureAuth: true, AuthBackend: true}
+	cfg, be := serverFor(pc)
+	cfg.MaxLineLength = 64
+	pre := hello(c.Mode)
+	nPre := 2
+	switch c.Pos {
+	case "auth-continuation":
+		pre += "AUTH ONE\r\n"
+		nPre = 3
+	case "in-transaction":
+		pre += "MAIL FROM:<ok@a.example>\r\nRCPT TO:<ok@b.example>\r\n"
+		nPre = 4
+	}
+	long := []byte(strings.Repeat("x", 200) + "\r\nNOOP\r\nNOOP\r\n")
+	segs := [][]byte{[]byte(pre)}
+	switch c.Seg {
+	case "one":
+		segs = append(segs, long)
+	case "split":
+		segs = append(segs, long[:40], long[40:])
+	default:
+		segs = append(segs, h.PerOctet(long)...)
+	}
+	o := h.RunS(cfg, be, segs, h.TermEOF)
+	desc := fmt.Sprintf("mode=%s: a line of 200 octets (limit 64) as %s, segmentation %s", c.Mode, c.Pos, c.Seg)
+	if f := o.Sanity("c04", desc); f != nil {
+		return f
+	}
+	if o.ParseErr != nil {
+		return h.F("c04-bad-wire", "%s: %v", desc, o.ParseErr)
+	}
+	// the prologue's replies, then exactly ONE final reply for the over-long line (the connection is closed with it)
+	if len(o.Replies) != nPre+1 || o.Replies[nPre].Class() != 5 {
+		return h.F("c04-long-line-replies", "%s: replies %s, want %d replies to the prologue and exactly one 5xx for the line", desc, o.Codes(), nPre)
+	}
+	return nil
+}
+
+func c04Long(run *h.Run) {
+	for _, mode := range corpusModes {
+		for _, pos := range []string{"command", "auth-continuation", "in-transaction"} {
+			for _, seg := range []string{"one", "split", "octet"} {
+				c := C04LongCase{Mode: mode, Pos: pos, Seg: seg}
+				f := evalC04Long(c)
+				run.Eval(true)
+				if f != nil {
+					run.Violate("c04-long", c, f, func() *h.Finding { return evalC04Long(c) })
+					run.Outcome("violation:" + f.Sig)
+				}
+			}
+		}
+	}
+}
+
+func init() { h.RegisterReplayer("c04-long", evalC04Long) }
 
 func c04Case(run *h.Run) {
 	for _, mode := range corpusModes {
